@@ -92,13 +92,24 @@ def k_rid_pair(ctx, a, b, ra, rb):
         ctx.check("rid.hash", len(d) == 2 and d[x] == 1 and d[y] == 2, "dict_conflates_different_ids", feat, case)
 
 
+def _pfe(width, val, style):
+    """The three documented ways to build an enumerated packet field of `width` octets."""
+    from spacepackets.ecss import fields as F
+    if style == "wrapper" and width in (1, 2, 4):
+        return {1: F.PacketFieldU8, 2: F.PacketFieldU16, 4: F.PacketFieldU32}[width](val)
+    if style == "pfc_ctor":
+        return F.PacketFieldEnum(width * 8, val)
+    return F.PacketFieldEnum.with_byte_size(width, val)
+
+
 def _mk_report(p):
     """p: sub, ts(hex), tc_v32, step [w, val]|None, code [w, val]|None, fdata hex, route, apid, count"""
     RequestId, s1, PFE, sp, PusTc = _imp()
     f = _fields(p["tc_v32"])
     ts = bytes.fromhex(p["ts"])
-    step = None if p["step"] is None else PFE.with_byte_size(p["step"][0], p["step"][1])
-    notice = None if p["code"] is None else s1.FailureNotice(PFE.with_byte_size(p["code"][0], p["code"][1]), bytes.fromhex(p["fdata"]))
+    style = p.get("pfe_style", "with_byte_size")
+    step = None if p["step"] is None else _pfe(p["step"][0], p["step"][1], style)
+    notice = None if p["code"] is None else s1.FailureNotice(_pfe(p["code"][0], p["code"][1], style), bytes.fromhex(p["fdata"]))
     if p["route"] == "ctor":
         rid = mk_rid(p["tc_v32"], "ctor")
         return s1.Service1Tm(apid=p["apid"], subservice=s1.Subservice(p["sub"]), timestamp=ts, verif_params=s1.VerificationParams(rid, step, notice),
@@ -122,6 +133,7 @@ def k_report(ctx, p):
     cw = p["code"][0] if p["code"] else 1
     trivial = p["tc_v32"] >> 29 == 0 and sw == 1 and cw == 1 and not p["fdata"]
     ctx.case(f"report/sub={sub}/{p['route']}", json.dumps(p, sort_keys=True), nontrivial=not trivial, sample=case)
+    ctx.table("report_field_style", p.get("pfe_style", "with_byte_size"))
     ctx.table("report_grid", f"sub={sub}/step_w={sw if p['step'] else '-'}/code_w={cw if p['code'] else '-'}/fdata={len(p['fdata']) // 2}/ts={len(p['ts']) // 2}")
     tc_v32 = p["tc_v32"] if p["route"] == "ctor" else (p["tc_v32"] | (1 << 28) | (1 << 27))       # helpers build from a TC header: type TC, sec header flag set
     rid4 = tc_v32.to_bytes(4, "big")
@@ -176,6 +188,53 @@ def k_param_match(ctx, sub, has_step, has_notice):
         ctx.fail("report.param_match", "wrong_error", f"{type(res).__name__}", case, error=repr(res))
 
 
+def k_rid_history(ctx, seed):
+    """One request-id object whose public attributes are reassigned between reads: after every step all views agree
+    with each other and with a fresh object of the same bits."""
+    import random
+    RequestId, s1, PFE, sp, PusTc = _imp()
+    r = random.Random(f"ridh/{seed}")
+    case = {"k": "rid_history", "seed": seed}
+    ctx.case("rid_history", seed, sample=case)
+    v = r.getrandbits(32)
+    obj = mk_rid(v, r.choice(ROUTES))
+    trail = []
+    for step in range(r.randrange(2, 8)):
+        op = r.choice(("as_u32", "hash", "eq", "dict", "pack", "set_psc", "set_packet_id", "set_version"))
+        trail.append(op)
+        if op == "as_u32":
+            obj.as_u32()
+        elif op == "hash":
+            hash(obj)
+        elif op == "eq":
+            obj == mk_rid(r.getrandbits(32), "ctor")
+        elif op == "dict":
+            {obj: 1}.get(obj)
+        elif op == "pack":
+            obj.pack()
+        elif op == "set_psc":
+            w = r.getrandbits(16)
+            obj.tc_psc = sp.PacketSeqCtrl.from_raw(w)
+            v = (v & 0xFFFF0000) | w
+        elif op == "set_packet_id":
+            w = r.getrandbits(13)
+            obj.tc_packet_id = sp.PacketId.from_raw(w)
+            v = (v & 0xE000FFFF) | (w << 16)
+        else:
+            w = r.getrandbits(3)
+            obj.ccsds_version = w
+            v = (v & 0x1FFFFFFF) | (w << 29)
+        ctx.table("rid_history_ops", op)
+        fresh = mk_rid(v, "unpack")
+        want = v.to_bytes(4, "big")
+        ok, got = attempt(lambda: (bytes(obj.pack()), obj.as_u32(), obj == fresh, fresh == obj, hash(obj) == hash(fresh), {fresh: 7}.get(obj)))
+        mutated = any(t.startswith("set_") for t in trail)
+        if not ctx.check("rid.history", ok and got == (want, v, True, True, True, 7), "views_disagree_after_attribute_assignment" if mutated else "views_disagree",
+                         "" if not ok else ",".join(n for n, g, w_ in zip(("pack", "as_u32", "eq", "eq_rev", "hash", "dict"), got, (want, v, True, True, True, 7)) if g != w_),
+                         case, trail=trail, observed=repr(got), expected=[want.hex(), v]):
+            return
+
+
 def k_pfe(ctx, width, val):
     RequestId, s1, PFE, sp, PusTc = _imp()
     case = {"k": "pfe", "width": width, "val": val}
@@ -190,7 +249,7 @@ def k_pfe(ctx, width, val):
     ctx.check("pfe", (not ok) and isinstance(u, ValueError), "short_input_accepted", f"w={width}", case, observed=repr(u))
 
 
-KINDS = {"rid": k_rid, "rid_pair": k_rid_pair, "report": k_report, "param_match": k_param_match, "pfe": k_pfe}
+KINDS = {"rid_history": k_rid_history, "rid": k_rid, "rid_pair": k_rid_pair, "report": k_report, "param_match": k_param_match, "pfe": k_pfe}
 
 
 def rand_report(r, sub=None, sw=None, cw=None, fd=None, tsl=None, route=None):
@@ -201,7 +260,8 @@ def rand_report(r, sub=None, sw=None, cw=None, fd=None, tsl=None, route=None):
     tsl = r.choice((0, 7, 12)) if tsl is None else tsl
     return {"sub": sub, "ts": rand_bytes(r, tsl).hex(), "tc_v32": rand_uint(r, 32), "step": [sw, rand_uint(r, 8 * sw)] if sub in (5, 6) else None,
             "code": [cw, rand_uint(r, 8 * cw)] if sub % 2 == 0 else None, "fdata": rand_bytes(r, fd).hex() if sub % 2 == 0 else "",
-            "route": route or r.choice(("ctor", "helper")), "apid": rand_uint(r, 11), "count": rand_uint(r, 14)}
+            "route": route or r.choice(("ctor", "helper")), "apid": rand_uint(r, 11), "count": rand_uint(r, 14),
+            "pfe_style": r.choice(("with_byte_size", "wrapper", "pfc_ctor"))}
 
 
 def selftest(ctx):
@@ -237,6 +297,8 @@ def run(ctx):
         c = r.random()
         b = a if c < 0.4 else a ^ (1 << r.randrange(32)) if c < 0.8 else r.getrandbits(32)
         k_rid_pair(ctx, a, b, r.choice(ROUTES), r.choice(ROUTES))
+    for j in range(ctx.n(2000, 200_000)):
+        k_rid_history(ctx, ctx.seed * 1_000_003 + ctx.shard[0] * 100_003 + j)
     # report grid
     i = 0
     for sub in range(1, 9):
@@ -263,9 +325,10 @@ def run(ctx):
 def conclude(ctx):
     ctx.require(len(ctx.tables.get("param_match_grid", {})) == 32, "parameter match grid incomplete")
     ctx.require(len(ctx.tables.get("report_grid", {})) >= 100, "report grid too small")
+    ctx.require(len(ctx.tables.get("report_field_style", {})) == 3, "not every packet-field construction style was used in reports")
     for route in ROUTES:
         ctx.require(ctx.classes.get(f"rid/{route}", 0) > 0, f"route {route} not exercised")
     for c in ("rid_pair/equal", "rid_pair/onebit", "rid_pair/different"):
         ctx.require(ctx.classes.get(c, 0) > 0, f"class {c} empty")
-    for m in ("rid.pack", "rid.as_u32", "rid.unpack", "rid.eq", "rid.hash", "report.pack", "report.unpack", "report.roundtrip", "report.param_match", "report.source_data", "pfe"):
+    for m in ("rid.pack", "rid.as_u32", "rid.unpack", "rid.eq", "rid.hash", "report.pack", "report.unpack", "report.roundtrip", "report.param_match", "report.source_data", "pfe", "rid.history"):
         ctx.require(ctx.monitors.get(m, {}).get("evaluations", 0) > 0, f"monitor {m} never evaluated")
